@@ -480,6 +480,33 @@ func keyBytes() {
 				bad++
 			}
 		}
+		// byte-driven complement: two-byte characters that decode to several runes (Big5 88 62:
+		// a letter and its combining macron) - all of their runes, in order
+		if enc != nil {
+			for b0 := 0x80; b0 <= 0xff; b0++ {
+				for b1 := 0x20; b1 <= 0xff; b1++ {
+					in := []byte{byte(b0), byte(b1)}
+					out, err := enc.NewDecoder().Bytes(in)
+					if err != nil || utf8.RuneCount(out) < 2 || strings.ContainsRune(string(out), utf8.RuneError) || strings.IndexFunc(string(out), func(x rune) bool { return x < 0x20 }) >= 0 {
+						continue
+					}
+					if one, err := enc.NewDecoder().Bytes(in[:1]); err == nil && len(one) > 0 && !strings.ContainsRune(string(one), utf8.RuneError) {
+						continue // two one-byte characters
+					}
+					var want []ri.Ev
+					for _, x := range string(out) {
+						want = append(want, ri.Ev{Kind: "key", Key: tcell.KeyRune, Rune: x})
+					}
+					w.R.Evaluations++
+					w.AddDistinct(1)
+					ok := s.InjectKeyBytes(in)
+					if got := poll(); !ok || !ri.EqEvs(got, want) {
+						w.Violation("inject-bytes:"+cs+":multi-rune-char", fmt.Sprintf("charset %s: InjectKeyBytes(% x), one character that is the text %q (%U), returned %v and delivered %v", cs, in, string(out), []rune(string(out)), ok, got),
+							map[string]interface{}{"charset": cs, "bytes": fmt.Sprintf("% x", in)})
+					}
+				}
+			}
+		}
 		for l := 1; l <= 4; l++ {
 			v := byLen[l]
 			if len(v) > 0 {
